@@ -566,6 +566,12 @@ class RecBadBefore:
 class HoldsRecBad:
     u: Union[str, RecBadAfter] = ""
     v: Union[RecBadBefore, int] = 0
+# the same ignored alternative (not a data type) met n times in one graph, next to a recursive named type: ignoring it
+# leaves nothing behind, however often it happens
+import dataclasses as _dcs
+ManyBad = {n: _dcs.make_dataclass(f"ManyBad{n}", [("root", Rec)] + [(f"h{i}", Optional[Opaque], field(default=None)) for i in range(n)]) for n in (1, 3, 4, 5, 8)}
+ManyBadList = {n: _dcs.make_dataclass(f"ManyBadList{n}", [(f"h{i}", Union[int, List[Opaque]], field(default=0)) for i in range(n)]) for n in (4, 6)}
+ManyBadNested4 = _dcs.make_dataclass("ManyBadNested4", [(f"h{i}", Union[int, HoldsRecBad], field(default=0)) for i in range(4)])
 # a child of a discriminated class met before its parent, and a child referring back to the parent
 @dataclass
 class ChildFirst:
@@ -658,6 +664,9 @@ EXPECT = {
     "RecBadAfter": (Union[str, RecBadAfter], set(), set()),
     "RecBadBefore": (Union[str, RecBadBefore], set(), set()),
     "HoldsRecBad": (HoldsRecBad, set(), {"HoldsRecBad"}),
+    **{f"ManyBad{n}": (c, {"Rec"}, {f"ManyBad{n}", "Rec"}) for n, c in ManyBad.items()},
+    **{f"ManyBadList{n}": (c, set(), {f"ManyBadList{n}"}) for n, c in ManyBadList.items()},
+    "ManyBadNested4": (ManyBadNested4, {"HoldsRecBad"}, {"ManyBadNested4", "HoldsRecBad"}),  # met four times: a definition
     "AnnUnion": (AnnUnion, {"ACat", "ADog"}, {"ACat", "ADog"}),
     "AnnUnion604": (AnnUnion604, {"BCat", "BDog"}, {"BCat", "BDog"}),
     "Pet": (Pet, {"Pet", "Cat", "Dog"}, {"Pet", "Cat", "Dog"}),
